@@ -359,6 +359,175 @@ class FullMetFile(CutMetFile):
         return (full, full)
 
 
+class _Hang(BaseException):
+    pass
+
+
+def _with_alarm(seconds, fn):
+    """run fn() under a wall-clock limit (the obligations run in the main
+    thread of their own worker process)"""
+    import signal
+
+    def onalarm(signum, frame):
+        raise _Hang('no result after %d s' % seconds)
+    old = signal.signal(signal.SIGALRM, onalarm)
+    signal.setitimer(signal.ITIMER_REAL, seconds)
+    try:
+        return fn()
+    finally:
+        signal.setitimer(signal.ITIMER_REAL, 0)
+        signal.signal(signal.SIGALRM, old)
+
+
+class CutWind(CutMet):
+    """wind memmap reader (RecordFile walk at open time + whole-file word
+    mapping) on the prefix [0, L) of a reference wind file.  The reader needs
+    a real path, so the prefix is written to a scratch file once the solver
+    has fixed L; termination is part of the verdict (wall-clock limit)."""
+    modname = 'PseudoNetCDF.camxfiles.wind.Memmap'
+    stubs = ('file length symbolic; the prefix is materialised per feasible '
+             'length class', 'wall-clock limit of 4 s for "terminates"')
+    LIMIT = 4
+
+    def __init__(self, nz, T, rows, cols, rec=None, h0=22):
+        self.nz, self.T, self.rows, self.cols = nz, T, rows, cols
+        self.rec, self.h0 = rec, h0
+        self.name = 'cut-wind[nz=%d,T=%d,rows=%d,cols=%d,record=%s]' % (
+            nz, T, rows, cols, rec)
+        self.bounds = {'nz': nz, 'T': T, 'rows': rows, 'cols': cols,
+                       'L': 'every byte offset inside record %s' % rec}
+        self._bd = None
+
+    def layout(self):
+        return layouts.WindLayout(self.nz, self.T, self.rows * self.cols, 1,
+                                  4365, self.h0 * 100)
+
+    def _starts(self):
+        lay = self.layout()
+        out = []
+        for ti in range(self.T):
+            out.append(lay.header(ti))
+            for k in range(self.nz):
+                out += [lay.data_record(ti, k, 0), lay.data_record(ti, k, 1)]
+            out.append(lay.dummy_record(ti))
+        return out + [lay.length]
+
+    def blob_and_data(self):
+        if self._bd is None:
+            lay = self.layout()
+            d = tempfile.mkdtemp(prefix='verif_met_')
+            p = os.path.join(d, 'full.bin')
+            try:
+                data = lay.write_real(p, self.rows, self.cols)
+                with open(p, 'rb') as f:
+                    blob = f.read()
+            finally:
+                os.remove(p)
+                os.rmdir(d)
+            tfl = [(cent(dd), int(tt) * 100) for dd, tt in lay.times]
+            self._bd = (blob, data, tfl, lay.B)
+        return self._bd
+
+    def Lrange(self, full):
+        if self.rec is None:
+            return (1, full - 1)
+        st = self._starts()
+        return (max(1, st[self.rec]), min(full - 1, st[self.rec + 1] - 1))
+
+    def _open(self, cls, path):
+        def go():
+            f = cls(path, self.rows, self.cols)
+            k = len(f.dimensions['TSTEP'])
+            vals = dict((v, np.asarray(f.variables[v][:])) for v in 'UV')
+            tf = np.asarray(f.variables['TFLAG'][:])[:, 0, :]
+            return k, vals, tf
+        return _with_alarm(self.LIMIT, go)
+
+    def _verdict(self, f_open, nb, viol):
+        try:
+            return CutMet._verdict(self, f_open, nb, viol)
+        except _Hang:
+            raise
+
+    def sym(self, ctx, h):
+        sp = loader.TwinSpace(stubs={
+            'PseudoNetCDF.pncwarn': common.warn_stub(common.WarnRec())})
+        mod = sp.twin(self.modname)
+        self._space = sp
+        blob, data, tflags, B = self.blob_and_data()
+        lo, hi = self.Lrange(len(blob))
+        L = ctx.int('L', lo, hi)
+        nb = ctx.concretize(L.e)
+        d = tempfile.mkdtemp(prefix='verif_met_')
+        path = os.path.join(d, 'cut.bin')
+        import sys
+        try:
+            with open(path, 'wb') as f:
+                f.write(blob[:nb])
+            viol = {}
+            sys.setprofile(sp.profile())
+            try:
+                obs = self._run(lambda: self._open(mod.wind, path), nb, viol)
+            finally:
+                sys.setprofile(None)
+        finally:
+            import shutil
+            shutil.rmtree(d, ignore_errors=True)
+        h.observe('raised', obs['raised'])
+        if not obs['raised'] and 'steps' in obs:
+            h.observe('steps', obs['steps'])
+        for lab in ('terminates', 'whole-steps-only', 'data-of-full-file',
+                    'time-flags-of-full-file', 'all-steps'):
+            h.claim(lab, z3.BoolVal(lab not in viol))
+        if self.full:
+            h.claim('opens', z3.BoolVal(not obs['raised']))
+
+    def _run(self, f_open, nb, viol):
+        try:
+            return CutMet._verdict(self, f_open, nb, viol)
+        except _Hang as ex:
+            viol['terminates'] = str(ex)
+            return {'raised': False}
+
+    def real(self, inputs):
+        import warnings
+        blob, data, tflags, B = self.blob_and_data()
+        L = int(frac_of(inputs.get('L', len(blob))))
+        viol = {}
+        d = tempfile.mkdtemp(prefix='verif_met_')
+        path = os.path.join(d, 'cut.bin')
+        try:
+            with open(path, 'wb') as f:
+                f.write(blob[:L])
+            with warnings.catch_warnings():
+                warnings.simplefilter('ignore')
+                from PseudoNetCDF.camxfiles.wind.Memmap import wind
+                obs = self._run(lambda: self._open(wind, path), L, viol)
+        finally:
+            import shutil
+            shutil.rmtree(d, ignore_errors=True)
+        if self.full and obs['raised']:
+            viol['opens'] = 'raised %s on a complete file' % obs.get('how')
+        o = {'raised': obs['raised']}
+        if not obs['raised'] and 'steps' in obs:
+            o['steps'] = obs['steps']
+        return {'obs': o, 'violations': viol, 'L': L}
+
+
+class FullWind(CutWind):
+    full = True
+
+    def __init__(self, nz, T, rows, cols, h0=22):
+        CutWind.__init__(self, nz, T, rows, cols, None, h0)
+        self.name = 'reader-wind-full[nz=%d,T=%d,rows=%d,cols=%d]' % (
+            nz, T, rows, cols)
+        self.bounds = {'nz': nz, 'T': T, 'rows': rows, 'cols': cols}
+
+    def Lrange(self, full):
+        return (full, full)
+
+
+
 def cut_obligations(tier):
     obs = []
     grids = [(2, 3, 1, 3), (1, 3, 2, 1)]
@@ -373,6 +542,11 @@ def cut_obligations(tier):
                 for rec in range(len(lay.seq) * T):
                     obs.append(CutMetFile(fmt, nz, T, rows, cols, explicit,
                                           rec))
+    for nz, T, rows, cols in ([(2, 2, 1, 2), (1, 3, 2, 1)] if tier == 'quick'
+                              else [(2, 2, 1, 2), (1, 3, 2, 1), (2, 3, 2, 2),
+                                    (3, 2, 1, 3)]):
+        for rec in range((2 * nz + 2) * T):
+            obs.append(CutWind(nz, T, rows, cols, rec))
     return obs
 
 
@@ -388,4 +562,6 @@ def full_obligations(tier):
                 if not explicit and (rows != 1 or fmt != 'one3d'):
                     continue
                 obs.append(FullMetFile(fmt, nz, T, rows, cols, explicit))
+    for nz, T, rows, cols in ((2, 2, 1, 2), (1, 3, 2, 1), (2, 3, 2, 2)):
+        obs.append(FullWind(nz, T, rows, cols))
     return obs
